@@ -68,6 +68,8 @@ class VSocket:
         return ("10.0.0.1", 40000 + self.fd)
 
     def connect(self, addr):
+        if self.closed:
+            raise OSError(errno.EBADF, "bad file descriptor")          # (as the OS: a closed descriptor cannot be connected)
         self.env.log.append(("dial", addr[0], addr[1], self.env.now))
         self.peer_addr = addr
         o = self.connect_outcome
